@@ -16,11 +16,14 @@ set_option linter.unusedVariables false
 namespace PCV.C09
 open PCV PCV.LinCode
 
-/-- **Ligero defaults**: security parameter 128, inverse rate 4, well-formedness check on; reported
-distance `3/4`, which `calculate_t` can use (`0 < d0 < 2·d1`). -/
+/-- **Ligero defaults**: security parameter 128, well-formedness check on; inverse rate 4
+(univariate: reported distance `3/4`) and 2 (multilinear: distance `1/2`), both usable by
+`calculate_t` (`0 < d0 < 2·d1`). -/
 theorem lincode_ligero_defaults :
     ligeroSetup.secParam = 128 ∧ ligeroSetup.rhoInv = 4 ∧ ligeroSetup.checkWf = true ∧
-      ligeroSetup.distance = (3, 4) ∧ distanceUsable 3 4 = true := by decide
+      ligeroSetup.distance = (3, 4) ∧ distanceUsable 3 4 = true ∧
+    ligeroSetupML.secParam = 128 ∧ ligeroSetupML.rhoInv = 2 ∧ ligeroSetupML.checkWf = true ∧
+      ligeroSetupML.distance = (1, 2) ∧ distanceUsable 1 2 = true := by decide
 
 /-- every inverse rate `≥ 2` reports a usable distance (`rho_inv = 1` reports distance `0`, with
 which `calculate_t` — hence `compute_dimensions` — refuses: `C13.calcT_unusable`) -/
@@ -82,8 +85,10 @@ theorem lincode_ligero_max_degree_pos (s : Nat) (pp : LigeroParams) :
     · exact Nat.pos_iff_ne_zero.1 (Nat.two_pow_pos _)
     · decide
 
-/-- over the scalar field of BLS12-381 (two-adicity 32) the defaults report `2^56` -/
-theorem lincode_ligero_bls_report : ligeroMaxDegree 32 ligeroSetup = 2 ^ 56 := by decide
+/-- over the scalar field of BLS12-381 (two-adicity 32) the defaults report `2^56` (univariate) and
+`2^60` (multilinear) -/
+theorem lincode_ligero_bls_report :
+    ligeroMaxDegree 32 ligeroSetup = 2 ^ 56 ∧ ligeroMaxDegree 32 ligeroSetupML = 2 ^ 60 := by decide
 
 /-! non-vacuity -/
 example : pcsSetup (2 ^ 56) 1000 = .ok () ∧ pcsSetup (2 ^ 56) (2 ^ 56 + 1) = .error .invalidParameters ∧
